@@ -194,7 +194,7 @@ func c13Run(chain *c13kit.Chain, c c13Case) (res c13Result) {
 	defer tick.Stop()
 	held := []*c13Peer{}
 	holding := c.Reverse
-	synced := false
+	synced, livelock := false, false
 LOOP:
 	for {
 		select {
@@ -244,6 +244,11 @@ LOOP:
 				if p := n.cur[h]; p != nil && !n.inPool(p) {
 					n.addPeer(h) // dropped from the pool: a fresh peer offers this height
 				}
+			}
+			if len(n.peers) > 80 {
+				// <= 3 lies cannot cost that many peers: requests are being retried without the cause going away
+				livelock = true
+				break LOOP
 			}
 			if !synced {
 				if st, err := n.node.StateStore.Load(); err == nil && st.LastBlockHeight >= c13kit.Tip {
@@ -305,6 +310,19 @@ LOOP:
 			res.Key, res.What, res.Outcome = key, what, "violation"
 			return
 		}
+	}
+	if livelock {
+		for _, p := range n.peers {
+			if p.Asked && !p.Resp.Usable && p.IsRunning() {
+				res.Key = "blockchain/v0:peer-not-stopped-after:" + p.Resp.Lie.String()
+				res.What = fmt.Sprintf("peer for height %d answered with %q (unusable) and is still connected and in use while %d replacement peers were consumed around it", p.H, p.Resp.Lie, len(n.peers))
+				res.Outcome = "violation"
+				return
+			}
+		}
+		res.Inconcl = "more than 80 peers consumed without reaching the tip"
+		res.Outcome = "inconclusive"
+		return
 	}
 	if !reached {
 		if hr.Called {
